@@ -319,6 +319,10 @@ def idxFix (idx : List (Bytes × Nat)) (old new : Bytes) : List (Bytes × Nat) :
     | some s => idxInsert (idxRemove acc e.1) (new ++ s) e.2
     | none => acc) idx
 
+/-- a referrer that no longer exists (the weak reference of an element that was merged away by `load_buffer`): it keeps its
+place in the list, so the key survives the removal of the other referrers, but no query shows it -/
+def ghostRef : Nat := 4000000000
+
 def refsAdd (rs : List (Bytes × List Nat)) (p : Bytes) (id : Nat) : List (Bytes × List Nat) :=
   if rs.any (·.1 == p) then rs.map fun e => if e.1 == p then (p, e.2 ++ [id]) else e else rs ++ [(p, [id])]
 
